@@ -36,6 +36,10 @@ pub enum Step {
     Sleep(u64),
     /// the tower forgets the subscription: it refuses appointments until the client registers again
     LoseSubscription(usize),
+    /// the client must show this status for the tower right now
+    ExpectStatus(usize, String),
+    /// wait at most this many seconds for the tower to have nothing pending
+    WaitDeliveredWithin(usize, u64),
 }
 
 #[derive(Clone, Debug, serde::Serialize, serde::Deserialize)]
@@ -352,6 +356,23 @@ pub fn run_scenario(sc: &Scenario, props: &[&'static str]) -> Trace {
                     }
                 }
             }
+            Step::ExpectStatus(t, want) => {
+                let st = cx.status_of(*t).unwrap_or_default();
+                cx.trace.events.push(format!("expect-status({t},{want}) -> {st}"));
+                if st != *want {
+                    cx.v("C13", format!("status-{st}-instead-of-{want}"), format!("tower {t}; events {:?}", cx.trace.events));
+                }
+            }
+            Step::WaitDeliveredWithin(t, secs) => {
+                let id = cx.tower_hex(*t);
+                let dir = &cx.dir;
+                let ok = wait_until(Duration::from_secs(*secs), || read_store(dir).map_or(false, |s| !s.pending.iter().any(|(tw, _)| *tw == id)));
+                cx.trace.events.push(format!("wait-delivered-within({t},{secs}s) -> {ok}"));
+                if !ok {
+                    let st = cx.status_of(*t).unwrap_or_default();
+                    cx.v("C13", format!("pending-not-delivered-within-the-retry-time:status-{st}"), format!("tower {t} came back while the client was still within its retry time, yet its pending appointments were not delivered within {secs} s; events {:?}", cx.trace.events));
+                }
+            }
             Step::WaitStatus(t, want) => {
                 let budget = cx.budget();
                 let t0 = Instant::now();
@@ -661,6 +682,34 @@ fn c05_scenarios(tier: Tier) -> Vec<Scenario> {
             Step::Settle,
         ],
     });
+    // one tower proven misbehaving on a commitment the other one acknowledged; restart; the honest one keeps being used
+    v.push(Scenario {
+        name: "two-towers:one-misbehaves-on-a-commitment-the-other-acknowledged:restart".into(),
+        towers: 2,
+        opts: RetryOpts::default(),
+        steps: vec![Step::Register(0), Step::Register(1), Step::Script(1, add.clone(), vec![Reply::WrongKey]), Step::Revoke(1), Step::Settle, Step::Restart, Step::Settle, Step::Revoke(2), Step::Settle],
+    });
+    // a tower is abandoned while the retrier has a request for a shared commitment in flight with it
+    v.push(Scenario {
+        name: "shared-pending:tower-abandoned-while-its-delivery-is-in-flight".into(),
+        towers: 2,
+        opts: RetryOpts::default(),
+        steps: vec![
+            Step::Register(0),
+            Step::Register(1),
+            Step::Down(0),
+            Step::Down(1),
+            Step::Revoke(1),
+            Step::Script(0, add.clone(), vec![Reply::Hold]),
+            Step::Up(0),
+            Step::Sleep(2500),
+            Step::Abandon(0),
+            Step::Release(0),
+            Step::Settle,
+            Step::Restart,
+            Step::Settle,
+        ],
+    });
     // two towers holding the same commitments as pending / invalid (appointment bodies are shared between
     // towers in the store): what one tower does must not cost the other its record
     v.push(Scenario {
@@ -789,6 +838,43 @@ fn c13_scenarios(_tier: Tier) -> Vec<Scenario> {
             steps: vec![Step::Register(0), Step::Down(0), Step::Revoke(1), Step::Revoke(2), Step::Script(0, add.clone(), vec![Reply::Reject(36)]), Step::Up(0), Step::WaitDelivered(0)],
         },
     ];
+    // an outage longer than the longest back-off interval but well within the retry time: the retrier is still at it
+    // when the tower comes back (no auto-retry to fall back on)
+    v.push(Scenario {
+        name: "outage-between-max-interval-and-max-retry-time:no-overlap".into(),
+        towers: 1,
+        opts: RetryOpts { max_retry_time: 8, auto_retry_delay: 300, max_retry_interval: 1 },
+        steps: vec![
+            Step::Register(0),
+            Step::Down(0),
+            Step::Revoke(1),
+            Step::Sleep(3500),
+            Step::ExpectStatus(0, "temporary_unreachable".into()),
+            Step::Up(0),
+            Step::WaitDeliveredWithin(0, 4),
+        ],
+    });
+    // the retrier cannot renew the subscription (the tower's receipt does not verify): the user registers again by
+    // hand and asks for a retry, as documented
+    v.push(Scenario {
+        name: "subscription-error-renewed-by-the-user-then-manual-retry:no-overlap".into(),
+        towers: 1,
+        opts: RetryOpts { max_retry_time: 2, auto_retry_delay: 300, max_retry_interval: 1 },
+        steps: vec![
+            Step::Register(0),
+            Step::Down(0),
+            Step::Revoke(1),
+            Step::LoseSubscription(0),
+            Step::Default(0, "/register".into(), Reply::WrongKey),
+            Step::Up(0),
+            Step::WaitStatus(0, "subscription_error".into()),
+            Step::Settle,
+            Step::Default(0, "/register".into(), Reply::Accept),
+            Step::Register(0),
+            Step::Retry(0),
+            Step::WaitDelivered(0),
+        ],
+    });
     // the subscription is lost and renewing it fails for longer than the retry budget; then the tower is fine again
     for k in [Reply::NonJson, Reply::Hangup, Reply::Html5xx] {
         v.push(Scenario {
